@@ -264,6 +264,24 @@ func cmdDirected(quick bool) {
 		rec.Kind = "nan-key"
 		hlib.Emit(rec)
 	}
+	// (3a') a struct used as a CQL map, in every declaration mode of structLayout (tags vs names, reversed declaration order): the encoder walks
+	// the struct in declaration order
+	{
+		tm := mapT(txt, i32)
+		keys := []*aval{aBytes([]byte("i1")), aBytes([]byte("u1")), aBytes([]byte("h4"))}
+		vals := []*aval{vint(1), vint(-2), aNull}
+		m := &aval{kind: "map"}
+		for i := range keys {
+			m.pairs = append(m.pairs, [2]*aval{keys[i], vals[i]})
+		}
+		for mode := 0; mode < 3; mode++ {
+			for _, ver := range []primitive.ProtocolVersion{primitive.ProtocolVersion3, primitive.ProtocolVersion5} {
+				emit(tm, g.planStructMap(tm, keys, vals, mode), m, ver)
+			}
+		}
+		m2 := &aval{kind: "map", pairs: [][2]*aval{{keys[2], vint(7)}, {keys[0], vint(8)}}}
+		emit(tm, g.planStructMap(tm, []*aval{keys[2], keys[0]}, []*aval{vint(7), vint(8)}, 2), m2, primitive.ProtocolVersion2)
+	}
 	// (3c) struct representations declared in source (tags, unexported fields), decode-only struct probes, characterised observations
 	tn := 0
 	cmdTags(func() string { tn++; return fmt.Sprintf("t%d", tn) })
